@@ -779,6 +779,48 @@ fn sparse_list_sweep<F: PrimeField>(ctx: &mut Ctx, p: u64, n: usize, max_len: us
     });
 }
 
+/// Sparse MLEs with MORE variables than the enumerated universes (n = 4, 5) and 3..5 non-zero entries at
+/// structured indices: `fix_variables` folds ceil(log2(#entries)) variables per batch, so partial points that
+/// are longer than one batch, not a multiple of it, and leave variables free only exist from n = 4 on.
+fn sparse_wide_sweep<F: PrimeField>(ctx: &mut Ctx, p: u64, n: usize) {
+    let alpha: Vec<usize> = if n == 4 { vec![0, 1, 2, 5, 8, 15] } else { vec![0, 1, 3, 6, 12, 21, 31] };
+    let mut sets: Vec<Vec<usize>> = Vec::new();
+    for mask in 0u32..(1 << alpha.len()) {
+        let c = mask.count_ones();
+        if (3..=5).contains(&c) {
+            sets.push((0..alpha.len()).filter(|i| mask >> i & 1 == 1).map(|i| alpha[i]).collect());
+        }
+    }
+    ctx.sweep(&format!("sparse_mle_wide.F{p}.n={n}"), sets.len() as u64, |i, loc| {
+        let idx = &sets[i as usize];
+        let size = 1usize << n;
+        let mut t = vec![0u64; size];
+        let pairs: Vec<(usize, u64)> = idx.iter().enumerate().map(|(k, ix)| (*ix, (k as u64 % (p - 1)) + 1)).collect();
+        for (ix, v) in &pairs {
+            t[*ix] = *v;
+        }
+        let window = {
+            let mut w = 0usize;
+            while (1usize << w) < idx.len() {
+                w += 1;
+            }
+            w.max(1)
+        };
+        loc.class_if(n > window, "sparse_fix:several_batches");
+        // some partial length is > window, not a multiple of it, and < n
+        loc.class_if((window + 1..n).any(|l| l % window != 0), "sparse_fix:partial_longer_than_batch_not_multiple");
+        if loc.sampling() {
+            loc.sample(format!("F_{p} sparse MLE n={n} entries {pairs:?}"));
+        }
+        let fp: Vec<(usize, F)> = pairs.iter().map(|(ix, v)| (*ix, fe(*v))).collect();
+        let s = Sparse::<F>::from_evaluations(n, &fp);
+        if !chk(loc, "sparse_construct", s.num_vars == n && s.table().as_deref() == Some(&t[..]), || format!("Sparse::from_evaluations(n={n}, {pairs:?}) = {}", s.describe())) {
+            return;
+        }
+        mle_common(loc, p, n, &t, &s);
+    });
+}
+
 fn sparse_pair_sweep<F: PrimeField>(ctx: &mut Ctx, p: u64, n: usize, max_len: usize) {
     let size = 1u64 << n;
     let a = size * p;
@@ -1387,6 +1429,12 @@ fn per_field<F: PrimeField>(ctx: &mut Ctx, p: u64) {
         let ml = if n == 3 && p != 3 && quick { 2 } else { 3 };
         sparse_list_sweep::<F>(ctx, p, n, ml);
     }
+    if p == 3 {
+        sparse_wide_sweep::<F>(ctx, p, 4);
+        sparse_wide_sweep::<F>(ctx, p, 5);
+    } else if p == 5 {
+        sparse_wide_sweep::<F>(ctx, p, 4);
+    }
     for n in 0..=3usize {
         // pairs of sparse operands
         let ml = match (n, p) {
@@ -1419,7 +1467,7 @@ fn per_field<F: PrimeField>(ctx: &mut Ctx, p: u64) {
 
 fn main() {
     let mut ctx = Ctx::from_args("C17");
-    ctx.require(&[
+    ctx.require(&["sparse_fix:partial_longer_than_batch_not_multiple", 
         "n=0",
         "zero_special_repr",
         "zero_special_repr:times_zero",
